@@ -21,6 +21,48 @@ STEMS = {1: "A b", 2: "m.d", 3: "é€ x", 4: "ω link"}
 SUFFIX = {"log": ".log", "gz": ".log.gz", "nonlog": ".bin", "dir": ""}
 
 
+def mixed_argument_runs(sc, rng, trials):
+    """Directories and single files interleaved on the command line; every message carries one instant, so stdout is the
+    files in the order they were named (sorted path order inside each directory).  Yields (label, argv, run, want)."""
+    md = os.path.join(sc, "mixedargs")
+    if os.path.isdir(md):
+        shutil.rmtree(md)
+    trees = {"dirA": ["a1.log", "sub/a2.log", "sub/deep/a3.log"] + ["many/f%02d.log" % q for q in range(25)],
+             "dirB": ["b1.log"], "dirC": ["x/c1.log", "y/c2.log"], "dirD": []}
+    files = ["f1.log", "f2.log", "g/f3.log", "t.tar"]
+    cont = {}
+    for dn, fl in trees.items():
+        os.makedirs(os.path.join(md, dn), exist_ok=True)
+        for fn in fl:
+            blob = b"".join(b"2024-01-01T00:00:00 src=%s idx=%d\n" % ((dn + "/" + fn).encode(), q) for q in range(2))
+            cont[dn + "/" + fn] = blob
+            gen.write(os.path.join(md, dn, fn), blob)
+    for fn in files:
+        blob = b"".join(b"2024-01-01T00:00:00 src=%s idx=%d\n" % (fn.encode(), q) for q in range(2))
+        cont[fn] = blob
+        gen.write(os.path.join(md, fn), gen.tar_bytes([("in.log", blob)]) if fn.endswith(".tar") else blob)
+
+    def expand(a):
+        if a in trees:
+            return [a + "/" + fn for fn in sorted(trees[a], key=lambda x: x.split("/"))]
+        return [a]
+    fixed = [["dirA", "f1.log"], ["dirA", "dirB"], ["f1.log", "dirA", "f2.log"], ["dirA", "t.tar", "dirB", "f1.log"], ["dirD", "dirA", "f1.log"]]
+    out = []
+    for trial in range(trials):
+        if trial < len(fixed):
+            argv = fixed[trial]
+        else:
+            argv = rng.sample(list(trees) + files, rng.randrange(2, 7))
+        want = b"".join(cont[p] for a in argv for p in expand(a))
+        r1 = common.run_s4(["--color", "never"] + argv, cwd=md, timeout=60)
+        out.append(("mixed-args", argv, r1, want))
+        k = rng.randrange(len(argv) + 1)
+        r2 = common.run_s4(["--color", "never"] + argv[:k] + ["-"], cwd=md, stdin=("\n".join(argv[k:]) + "\n").encode() if argv[k:] else b"", timeout=60)
+        out.append(("mixed-stdin", argv[:k] + ["-"] + ["<" + a for a in argv[k:]], r2, want))
+    shutil.rmtree(md, ignore_errors=True)
+    return out
+
+
 def run(pid, tier, seed):
     rep = Reporter(pid, tier, seed, "model_checking")
     rng = random.Random(seed * 1543 + 15)
@@ -239,6 +281,12 @@ def run(pid, tier, seed):
             if run_.crashed or run_.out != want_d:
                 rep.violation("expansion:%s" % label, "%s: a dangling link early in the tree: stdout differs (rc=%s, %d of %d bytes)"
                               % (label, run_.rc, len(run_.out), len(want_d)), {"kind": "c15-dangling", "stderr": run_.err[-300:].decode(errors="replace")})
+        # directories and single files interleaved on the command line: the run is that of the files in the order named
+        for label, argv, run_, want_m in mixed_argument_runs(sc, rng, 8 if tier == "quick" else 40):
+            nruns += 1
+            if run_.crashed or run_.out != want_m:
+                rep.violation("expansion:%s" % label, "%s %s: stdout is not that of the named files in the order named (rc=%s, differs at byte %d)"
+                              % (label, argv, run_.rc, first_diff(run_.out, want_m)), {"kind": "c15-mixed", "argv": argv, "got": run_.out[:600].decode(errors="replace")})
         rep.coverage["evaluations"] = nruns
         # tar inside a walked directory: members follow the same rule as files (explicit = attempted, walked = filtered)
         d = os.path.join(sc, "tarcase", "d")
